@@ -159,7 +159,7 @@ class NotifFamily(Family):
                         m.B -= 1
                         m.F = m.B
                         m.touched |= fresh(ch.choose(2))
-                        await asyncio.sleep(ch.delay(0.0, 0.2))
+                        await asyncio.sleep(ch.delay(0.001, 0.2))
                     m.P = None
                 else:
                     m.F = m.B
@@ -170,16 +170,16 @@ class NotifFamily(Family):
                     await call(n.on_block(t, m.B))
                     m.R = m.B
                     # idle poll
-                    await asyncio.sleep(ch.delay(0.0, 5.0))
+                    await asyncio.sleep(ch.delay(0.001, 5.0))
                     continue
-                await asyncio.sleep(ch.delay(0.0, 0.5))
+                await asyncio.sleep(ch.delay(0.001, 0.5))
 
         async def mp_task():
             while not m.stop:
                 if m.M is None:
                     if m.D == m.F:
                         m.M = m.D
-                    await asyncio.sleep(ch.delay(0.0, 1.0))
+                    await asyncio.sleep(ch.delay(0.001, 1.0))
                 else:
                     s = fresh(ch.choose(3)) if m.started else set()
                     h, m.M = m.M, None
@@ -191,11 +191,11 @@ class NotifFamily(Family):
                         m.started = True
                         oracle.event('start', m.F, set())
                         await call(n.start(m.F, notify))
-                    await asyncio.sleep(ch.delay(0.0, 5.0))
+                    await asyncio.sleep(ch.delay(0.001, 5.0))
 
         async def daemon_task():
             for _ in range(op['steps']):
-                await asyncio.sleep(ch.delay(0.0, 6.0))
+                await asyncio.sleep(ch.delay(0.001, 6.0))
                 if m.P is None and m.started and ch.chance(op['p_fork']) and min(m.B, m.D) >= 2:
                     d = 1 + ch.choose(2)
                     kind = ch.choose(4)
